@@ -133,22 +133,33 @@ func ValidateArea(a *AreaFeature, features b6.FeaturesByID) error {
 		if ids, ok := a.PathIDs(i); ok {
 			for _, id := range ids {
 				if path := features.FindFeatureByID(id); path != nil {
-					// ValidatePathForArea compares the locations of the first
-					// and last points of the path, which panics if they can't
-					// be resolved - for example, when a point of the path is
-					// being replaced by one without a location.
+					// The first and last points of the path are located via
+					// features, the world the area is being validated against,
+					// rather than via the path itself: a path returned by a
+					// base world resolves its points through that base, and
+					// so doesn't see a point that's modified (or, during
+					// AddFeature, about to be replaced) in the world above it.
+					// Looking the points up here also avoids a panic in
+					// PointAt if they can't be resolved.
 					physical := path.(b6.PhysicalFeature)
-					for _, i := range []int{0, physical.GeometryLen() - 1} {
-						if i >= 0 {
-							if point := path.Reference(i).Source(); point.IsValid() {
-								if _, err := features.FindLocationByID(point); err != nil {
-									return fmt.Errorf("%s: path %s missing point %s", a.AreaID, id, point)
-								}
+					n := physical.GeometryLen()
+					if n < 3 {
+						return fmt.Errorf("%s: %d points, expected 3 or more", physical.FeatureID(), n)
+					}
+					var ends [2]s2.Point
+					for j, i := range []int{0, n - 1} {
+						if point := path.Reference(i).Source(); point.IsValid() {
+							ll, err := features.FindLocationByID(point)
+							if err != nil {
+								return fmt.Errorf("%s: path %s missing point %s", a.AreaID, id, point)
 							}
+							ends[j] = s2.PointFromLatLng(ll)
+						} else {
+							ends[j] = physical.PointAt(i)
 						}
 					}
-					if err := ValidatePathForArea(physical); err != nil {
-						return err
+					if ends[0] != ends[1] {
+						return fmt.Errorf("%s: not closed", physical.FeatureID())
 					}
 				} else {
 					return fmt.Errorf("%s: non-existant path %s", a.AreaID, id)
